@@ -125,6 +125,12 @@ func genC04(g *G) {
 		for _, c := range chans[:2+g.R.Intn(3)] {
 			planDef.updates = append(planDef.updates, updVote{c, defsOf[c], all})
 		}
+		barren := g.R.Intn(6) == 0
+		if barren {
+			// a predecessor that never had a channel: its retirement report carries no validity starts
+			// (a nil map once decoded) and the successor carries its own entries forward on promotion
+			planDef = votePlan{}
+		}
 		obs, _ := w.round(planDef, []int{1, 2, 3, 4, 5})
 		roundsA = append(roundsA, J{"obs": obs})
 		for k := 2 + g.R.Intn(5); k > 0; k-- {
@@ -231,7 +237,12 @@ func monC04(op J, res any) (viol []Violation, nontrivial bool) {
 			rrVA[jU32(jget(e, "id"))] = jU64(jget(e, "va"))
 		}
 	}
-	// B
+	// B: a successor whose Outcome panics can never be promoted (the round is lost for every node alike)
+	for i, o := range jArr(r["B"]) {
+		if om := jObj(o); om != nil && om["panic"] != nil {
+			bad("successor-panics", fmt.Sprintf("Outcome/Reports of the successor panicked in its round %d: %s", i, jStr(om["panic_msg"])))
+		}
+	}
 	promoted := false
 	first := map[uint32]bool{}   // channels whose first non-specimen report has been seen
 	removed := map[uint32]bool{} // channels voted out after promotion (the property does not cover them any more)
